@@ -514,6 +514,32 @@ func runC13(p *Prog, r *Result) {
 	r.Check(okDQ, "R13c", "syntax.Quote#double-quote escapes ⊇ lexer specials", fd.Pos(), "lexer specials "+runeSetString(dqLexer)+" ⊆ escaped "+runeSetString(dqEsc),
 		fmt.Sprintf("inside double quotes the lexer acts on %q but Quote's fallback leaves it unescaped: the result expands to something else", string(miss)))
 	r.Check(dqEsc['\\'], "R13c", "syntax.Quote#double-quote escapes backslash", fd.Pos(), "backslash is escaped", "backslash is not escaped inside the double-quote fallback")
+	// the other direction (after seed C13-13): a backslash inside double quotes is removed only before the runes the
+	// expansion side lists; before any other rune it stays, so escaping one more rune adds a backslash to the value
+	if epkg := p.Pkg("expand"); epkg != nil {
+		if wf := p.FuncDecl("expand", "Config.wordField"); wf != nil {
+			var removed map[rune]bool
+			ast.Inspect(wf.Body, func(n ast.Node) bool {
+				if sw, ok := n.(*ast.SwitchStmt); ok && sw.Tag != nil && removed == nil {
+					if ix, ok := ast.Unparen(sw.Tag).(*ast.IndexExpr); ok {
+						if be, ok := ast.Unparen(ix.Index).(*ast.BinaryExpr); ok && be.Op == token.ADD {
+							if m := runeCases(epkg.TypesInfo, sw, nil); m['\\'] {
+								removed = m
+							}
+						}
+					}
+				}
+				return true
+			})
+			if removed == nil {
+				r.Undecided("R13c", "expand.(Config).wordField#backslash removal inside double quotes", wf.Pos(), "the switch that removes a backslash before a special rune was not found")
+			} else {
+				okRem, extra := subset(dqEsc, removed)
+				r.Check(okRem, "R13c", "syntax.Quote#double-quote escapes ⊆ what the expansion un-escapes", fd.Pos(), "escaped "+runeSetString(dqEsc)+" ⊆ un-escaped "+runeSetString(removed),
+					fmt.Sprintf("Quote's double-quote fallback writes a backslash before %q, which the expansion of a double-quoted string does not remove (it only does before %s): the backslash becomes part of the value", string(extra), runeSetString(removed)))
+			}
+		}
+	}
 	// the escape is written unconditionally in every clause that lists one of those runes
 	for _, sw := range qSw[1:] {
 		if m := runeCases(info, sw, nil); !(m['"'] && sw.Tag != nil) {
@@ -558,6 +584,8 @@ func runC13(p *Prog, r *Result) {
 }
 
 var c13Controls = []Control{
+	{Name: "double-quote-fallback-escapes-the-bang", Rule: "R13c", WantKey: "Quote#double-quote escapes ⊆ what the expansion un-escapes", File: "syntax/quote.go",
+		Mutate: ctlReplaceAnywhere("\t\tcase '\"', '\\\\', '`', '$':\n\t\t\tb.WriteByte('\\\\')", "\t\tcase '\"', '\\\\', '`', '$', '!':\n\t\t\tb.WriteByte('\\\\')")},
 	{Name: "latin1-code-points-written-as-one-byte", Rule: "R13j", WantKey: "Quote#byte(r)", File: "syntax/quote.go",
 		Mutate: ctlReplaceAnywhere("\t\t\tcase r < utf8.RuneSelf, r == utf8.RuneError && size == 1:\n\t\t\t\t// \\xXX, fixed at two hexadecimal characters.\n\t\t\t\tfmt.Fprintf(&b, \"\\\\x%02x\", rem[0])\n", "\t\t\tcase r <= 0xff, r == utf8.RuneError && size == 1:\n\t\t\t\tc := rem[0]\n\t\t\t\tif size > 1 {\n\t\t\t\t\tc = byte(r)\n\t\t\t\t}\n\t\t\t\tfmt.Fprintf(&b, \"\\\\x%02x\", c)\n")},
 	{Name: "elif-not-a-keyword", Rule: "R13i", WantKey: "the parser's word \"elif\" is quoted", File: "syntax/parser.go",
